@@ -578,11 +578,9 @@ def rule_proto_def(ctx):
     sec = family_section(ctx)
     if 'impl' not in sec:
         raise AnalysisError('FunctionArguments.c::fastcall implementation section vanished')
-    text = (sec['proto'].text or sec['proto'].raw) + '\n/*@@impl@@*/\n'
     pp_p = PPSection(sec['proto'].text or sec['proto'].raw)
     pp_i = PPSection(sec['impl'].text or sec['impl'].raw)
     both = PPSection((sec['proto'].text or sec['proto'].raw) + '\n' + (sec['impl'].text or sec['impl'].raw))
-    del text
     seen = {}
     for env in both.configs():
         dp, ok = pp_p.view(env)
